@@ -19,12 +19,17 @@ ASSUMPTIONS = ["as C01; with splices X'WX is singular (gauge), only the weighted
 
 def gen(ctx, rng):
     q = ctx.quick
-    nx = rng.randint(10, 30 if q else 80)
-    if not q and rng.random() < 0.04:
-        nx = rng.randint(100, 300)
-    nt = rng.randint(1, 4 if q else 8)
-    if not q and rng.random() < 0.04:
-        nt = rng.randint(12, 30)
+    # the exact rational reference solve is cubic in the number of unknowns (1 + 2nt + fitted locations + 2 nt nta): the upper end
+    # of the property's range (300 locations, 30 times) is visited rarely and not in both dimensions at once
+    nx = rng.randint(10, 30 if q else 60)
+    nt = rng.randint(1, 4 if q else 6)
+    if not q:
+        r = rng.random()
+        if r < 0.015:
+            nx, nt = rng.randint(100, 300), rng.randint(1, 2)
+        elif r < 0.03:
+            nt = rng.randint(12, 30)
+            nx = rng.randint(10, 24)
     return fibre.make_case(rng, double=True, nx=nx, nt=nt, n_baths=rng.choice([2, 2, 3, 1]), nta=rng.choice([0, 0, 0, 1, 2]),
                            n_match=rng.choice([0, 0, 1, 2]))
 
@@ -157,7 +162,7 @@ def batch(ctx, n, tagged_every):
 
 
 def run(ctx):
-    n = 40 if ctx.quick else 400
+    n = 40 if ctx.quick else 320
     core.parallel_cases(ctx, batch, [(n // 8, 2)] * 8, jobs=8)
 
 
